@@ -16,7 +16,7 @@ use crate::{
     osu::{self, Profile},
     rng::{hash_str, Rng},
     runner::{api as bracket, guard, Ctx},
-    sets::{self, ScoreSpec, SetDomain, SetSpec},
+    sets::{self, ScoreSpec, SetSpec},
 };
 
 #[derive(Clone, Debug)]
@@ -258,7 +258,7 @@ pub fn case(ctx: &mut Ctx, idx: u64) {
         let v = (0..3)
             .map(|_| {
                 let m = *rng.pick(&reachable_modes(&e.map));
-                let mut spec = sets::gen_setspec(&mut rng, m, SetDomain::Game);
+                let mut spec = sets::gen_setspec_wide(&mut rng, m, &e.map);
                 if rng.chance(0.3) {
                     spec.passed = Some(rng.below(u64::from(n) + 2) as u32);
                 }
